@@ -140,7 +140,7 @@ theorem snh_head_some {g : G} {k h : Nat} (hh : (g.setNextHead k).nextHead = som
 /-- Where the HEAD of next/src can come from. -/
 theorem head_exec (c : Cmd) (g : G) (p : Proc) (h : Nat) (hh : (exec c g p).1.nextHead = some h) :
     g.nextHead = some h ∨ h = g.remote ∨ (h = g.store.length + 1 ∧ g.store.length + 1 ≤ (exec c g p).1.store.length) ∨
-      h = p.hash := by
+      (h = p.hash ∧ p.hash ≠ 0) := by
   by_cases hc : c.wHead = false
   · left; rw [← fr_head c g p hc]; exact hh
   · revert hh
@@ -148,6 +148,11 @@ theorem head_exec (c : Cmd) (g : G) (p : Proc) (h : Nat) (hh : (exec c g p).1.ne
     · -- rm -rf next
       simp [exec, G.nextHead]
     · -- mkdir next
+      simp only [exec]
+      split
+      · simp [G.nextHead]
+      · intro hh; exact Or.inl hh
+    · -- rm -rf next/src
       simp only [exec]
       split
       · simp [G.nextHead]
@@ -184,8 +189,9 @@ theorem head_exec (c : Cmd) (g : G) (p : Proc) (h : Nat) (hh : (exec c g p).1.ne
       simp only [exec]
       split
       · intro hh; exact Or.inl hh
-      · intro hh
-        exact Or.inr (Or.inr (Or.inr (snh_head_some hh)))
+      · next hne =>
+        intro hh
+        exact Or.inr (Or.inr (Or.inr ⟨snh_head_some hh, hne⟩))
     · -- mv next pN
       simp only [exec]
       split
@@ -235,7 +241,7 @@ theorem VG_exec {c : Cmd} (hvg : VG g) (hvp : VP g p) : VG (exec c g p).1 := by
     · exact Nat.le_trans (hvg.head h h1) hlen
     · rw [h1]; exact Nat.le_trans hvg.remote hlen
     · rw [h1]; exact h2
-    · rw [h1]; exact Nat.le_trans hvp.hash hlen
+    · rw [h1.1]; exact Nat.le_trans hvp.hash hlen
 
 /-- Where `origin/master` and `$HASH` of the moving process can come from. -/
 theorem VP_exec_own {c : Cmd} {pc : Nat} {t : Bool} (hvg : VG g) (hvp : VP g p) :
@@ -277,10 +283,12 @@ theorem N_exec {c : Cmd} (hN : N g) (hΓ : Γ2 a g p) (hreq : req2 c a = true) (
     (hq : quiet (exec c g p).1) : N (exec c g p).1 := by
   by_cases c1 : c = .gitPush
   · subst c1
-    obtain ⟨h, hh, f1, f2, f3, f4⟩ := push_form hq.1
+    obtain ⟨h, hh, f4, f3, f1, _, _⟩ := push_form hq.1
     have hR : Rg g ≤ Rg (exec Cmd.gitPush g p).1 := by
       simp only [req2, Bool.or_eq_true, Bool.and_eq_true] at hreq
-      have : Rg (exec Cmd.gitPush g p).1 = (polOf g h).getD 0 := by simp [Rg, polOf, f1, f3]
+      have : Rg (exec Cmd.gitPush g p).1 = (polOf g h).getD 0 := by
+        have hpol : ∀ i, polOf (exec Cmd.gitPush g p).1 i = polOf g i := fun i => by simp [polOf, f3]
+        simp [Rg, hpol, f1]
       rw [this]
       rcases hreq with hr | ⟨hr1, hr2⟩
       · obtain ⟨_, h', hh', he⟩ := hΓ.hEqR hr
@@ -453,28 +461,31 @@ theorem quiet_commit {g : G} {good email : Bool} {pol : Option Nat} (h : quiet (
   obtain ⟨h1, h2, h3⟩ := h
   exact ⟨⟨h1, h2⟩, by cases pol <;> simp_all⟩
 
-theorem inv2_step {prog : Prog} {ann1 : Ann safety} {ann : Ann numbering}
+theorem inv2_stepCore {prog : Prog} {ann1 : Ann safety} {ann : Ann numbering}
     (hc1 : check safety prog ann1 = true) (hc : check numbering prog ann = true) {s : State}
-    (hinv1 : Inv1 ann1 s) (hinv : Inv2 ann s) (e : Event) : Inv2 ann (step prog s e) := by
+    (hinv1 : Inv1 ann1 s) (hinv : Inv2 ann s) (e : Event) : Inv2 ann (stepCore prog s e) := by
   obtain ⟨hdh, hvg, hvp, hn, hprocs⟩ := hinv
   cases e with
   | commit good pol email =>
-    simp only [step]
+    simp only [stepCore]
     have hlen : s.g.store.length ≤ (applyCommit s.g good pol email).store.length := by simp [applyCommit]
     refine ⟨fun n d h => by simpa [applyCommit] using hdh n d (by simpa [applyCommit] using h), ⟨by simp [applyCommit], fun h hh => ?_⟩, fun p hp => ⟨Nat.le_trans (hvp p hp).base hlen, Nat.le_trans (hvp p hp).hash hlen⟩, ?_, ?_⟩
     · have : s.g.nextHead = some h := by simpa [G.nextHead, applyCommit] using hh
       exact Nat.le_trans (hvg.head h this) hlen
     · intro hq
-      obtain ⟨hq0, hpol⟩ := quiet_commit hq
+      have hq' : quiet (applyCommit s.g good pol email) := hq
+      obtain ⟨hq0, hpol⟩ := quiet_commit hq'
       subst hpol
-      exact N_commit (hn hq0) hvg
+      have := N_commit (good := good) (email := email) (hn hq0) hvg
+      exact ⟨this.bound, this.incr⟩
     · intro hq p hp hal
-      obtain ⟨hq0, hpol⟩ := quiet_commit hq
+      have hq' : quiet (applyCommit s.g good pol email) := hq
+      obtain ⟨hq0, hpol⟩ := quiet_commit hq'
       subst hpol
       obtain ⟨b, hb, hΓ⟩ := hprocs hq0 p hp hal
-      exact ⟨b, hb, hΓ.commit hvg (hvp p hp)⟩
+      exact ⟨b, hb, (hΓ.commit (good := good) (email := email) hvg (hvp p hp)).congr (fun h => h) rfl rfl rfl rfl rfl⟩
   | spawn =>
-    simp only [step]
+    simp only [stepCore]
     refine ⟨hdh, hvg, ?_, hn, ?_⟩
     · intro p hp
       simp only [List.mem_append, List.mem_singleton] at hp
@@ -489,7 +500,7 @@ theorem inv2_step {prog : Prog} {ann1 : Ann safety} {ann : Ann numbering}
         obtain ⟨a, h1, h2⟩ := check_entry hc
         exact ⟨a, h1, (Γ2_entry s.g _).mono h2⟩
   | kill pid =>
-    simp only [step]
+    simp only [stepCore]
     cases hf : findProc s.procs pid with
     | none => exact ⟨hdh, hvg, hvp, hn, hprocs⟩
     | some p =>
@@ -508,7 +519,7 @@ theorem inv2_step {prog : Prog} {ann1 : Ann safety} {ann : Ann numbering}
             exact ⟨b, h1, h2.release (by simpa [hpp] using hq2)⟩
       · simp [hal]; exact ⟨hdh, hvg, hvp, hn, hprocs⟩
   | step pid =>
-    simp only [step]
+    simp only [stepCore]
     cases hf : findProc s.procs pid with
     | none => exact ⟨hdh, hvg, hvp, hn, hprocs⟩
     | some p =>
@@ -576,8 +587,25 @@ theorem inv2_step {prog : Prog} {ann1 : Ann safety} {ann : Ann numbering}
               rw [after_pid] at hq2
               exact ⟨b, h1, other2 h2 hq2 hmut⟩
       · simp [hal]; exact ⟨hdh, hvg, hvp, hn, hprocs⟩
+  | killDuring pid => exact ⟨hdh, hvg, hvp, hn, hprocs⟩
 
-theorem inv2_run {prog : Prog} {ann1 : Ann safety} {ann : Ann numbering}
+theorem Inv2.dying {ann : Ann numbering} {s : State} {d : List Nat} (h : Inv2 ann s) : Inv2 ann { s with dying := d } :=
+  ⟨h.dh, h.vg, h.vp, h.n, h.procs⟩
+
+/-- Both layers together, for all events. -/
+theorem inv12_step {prog : Prog} {ann1 : Ann safety} {ann : Ann numbering} (hinh : inhOK prog = true)
+    (hc1 : check safety prog ann1 = true) (hc : check numbering prog ann = true) {s : State}
+    (h : Inv1 ann1 s ∧ Inv2 ann s) (e : Event) : Inv1 ann1 (step prog s e) ∧ Inv2 ann (step prog s e) :=
+  step_lift hinh (P := fun s => Inv1 ann1 s ∧ Inv2 ann s)
+    (fun _ e h => ⟨inv1_stepCore hc1 h.1 e, inv2_stepCore hc1 hc h.1 h.2 e⟩)
+    (fun _ _ h => ⟨h.1.dying, h.2.dying⟩) s e h
+
+theorem inv2_step {prog : Prog} {ann1 : Ann safety} {ann : Ann numbering} (hinh : inhOK prog = true)
+    (hc1 : check safety prog ann1 = true) (hc : check numbering prog ann = true) {s : State}
+    (hinv1 : Inv1 ann1 s) (hinv : Inv2 ann s) (e : Event) : Inv2 ann (step prog s e) :=
+  (inv12_step hinh hc1 hc ⟨hinv1, hinv⟩ e).2
+
+theorem inv2_run {prog : Prog} {ann1 : Ann safety} {ann : Ann numbering} (hinh : inhOK prog = true)
     (hc1 : check safety prog ann1 = true) (hc : check numbering prog ann = true) (se : Bool) (es : List Event) :
     Inv1 ann1 (run prog se es) ∧ Inv2 ann (run prog se es) := by
   unfold run
@@ -585,6 +613,9 @@ theorem inv2_run {prog : Prog} {ann1 : Ann safety} {ann : Ann numbering}
   generalize init se = s0 at h0
   induction es generalizing s0 with
   | nil => exact h0
-  | cons e es ih => exact ih _ ⟨inv1_step hc1 h0.1 e, inv2_step hc1 hc h0.1 h0.2 e⟩
+  | cons e es ih => exact ih _ (inv12_step hinh hc1 hc h0 e)
+
+theorem tf2_total (c : Cmd) (a : F2) (ok : Bool) : ∃ x, tf2 c a ok = some x := by
+  cases c <;> simp [tf2] <;> (try split) <;> simp <;> (try split) <;> simp
 
 end NA.C19
